@@ -384,6 +384,16 @@ def build():
         note="shape-bounded: a batch of exactly 3 items (list comprehension unrolled); the comprehension itself is Python's",
     ))
 
+    # ---- delayed: the task triple is exactly (function, positional arguments, keyword arguments)
+    p.models["functools.wraps"] = lambda i, a, k: _Fn(lambda i2, a2, k2: a2[0])   # keeps the wrapper function (metadata copying is not modelled)
+    p.add(Contract(
+        PAR, "delayed", props=["C01"],
+        params=dict(function=OpaqueOf("userfn")),
+        ensures={"captures_the_call_unchanged": "result(7, 'x', key=8)[0] is function and result(7, 'x', key=8)[1] == (7, 'x') and result(7, 'x', key=8)[2]['key'] == 8 and len(result(7, 'x', key=8)[2]) == 1",
+                 "no_arguments_is_an_empty_call": "result()[1] == () and len(result()[2]) == 0"},
+        note="the returned closure is exercised on two concrete call shapes",
+    ))
+
     # ---- BatchedCalls: construction, length, and the form in which a batch travels to a worker process
     three_items = lambda i: PyList([(Opaque("task%d" % k, None), (), PyDict({})) for k in range(3)])
     for as_tuple in (True, False):
